@@ -135,7 +135,7 @@ func Quiescence(s *sim.Sim, n *Node, opt QuiescenceOpts) {
 		byRel[f.Rel] = f
 		diskSum += R4k(f.Size)
 		if !nameRe.MatchString(f.Rel) {
-			s.Violate("C04.name-grammar", f.Rel, "file name does not follow the v2 layout")
+			s.Violate("C04.name-grammar", ksOf(f.Rel), "file name %s does not follow the v2 layout", f.Rel)
 		}
 	}
 	want := map[string]disk.VerifIndexEntry{}
@@ -144,11 +144,11 @@ func Quiescence(s *sim.Sim, n *Node, opt QuiescenceOpts) {
 		want[rel] = e
 		f, ok := byRel[rel]
 		if !ok {
-			s.Violate("C04.missing-file", NormPath("/"+rel), "indexed entry %s has no file %s", e.Key, rel)
+			s.Violate("C04.missing-file", ksOf(rel), "indexed entry %s has no file %s", e.Key, rel)
 			continue
 		}
 		if f.Size != e.SizeOnDisk {
-			s.Violate("C04.size", NormPath("/"+rel), "file %s has %d bytes, index records %d", rel, f.Size, e.SizeOnDisk)
+			s.Violate("C04.size", ksOf(rel), "file %s has %d bytes, index records %d", rel, f.Size, e.SizeOnDisk)
 		}
 		if !opt.SkipContent && !opt.InFlight[e.Key] {
 			checkFileContent(s, n, rel, e)
@@ -156,7 +156,7 @@ func Quiescence(s *sim.Sim, n *Node, opt QuiescenceOpts) {
 	}
 	for _, f := range files {
 		if _, ok := want[f.Rel]; !ok {
-			s.Violate("C04.stray-file", NormPath("/"+f.Rel), "file %s (%d bytes) is not an indexed entry", f.Rel, f.Size)
+			s.Violate("C04.stray-file", ksOf(f.Rel), "file %s (%d bytes) is not an indexed entry", f.Rel, f.Size)
 		}
 	}
 	if len(s.Violations) == 0 && diskSum != o.Cnt.CurrentSize {
@@ -172,7 +172,7 @@ func checkFileContent(s *sim.Sim, n *Node, rel string, e disk.VerifIndexEntry) {
 		return
 	}
 	hash := e.Key[strings.IndexByte(e.Key, '/')+1:]
-	site := NormPath("/" + rel)
+	site := ksOf(rel)
 	switch {
 	case strings.HasPrefix(e.Key, "cas/") && !e.Legacy:
 		content, h, err := fmtv2.Decode(data)
@@ -198,6 +198,15 @@ func checkFileContent(s *sim.Sim, n *Node, rel string, e disk.VerifIndexEntry) {
 			s.Violate("C04.incomplete", site, "file has %d bytes, entry size %d", len(data), e.Size)
 		}
 	}
+}
+
+// ksOf returns the key-space directory of a relative path (violation sites
+// are kept generic so that one defect is one finding).
+func ksOf(rel string) string {
+	if i := strings.IndexByte(rel, '/'); i >= 0 {
+		return rel[:i]
+	}
+	return rel
 }
 
 // OpenFDs lists descriptors of this process that point below dir.
